@@ -241,17 +241,36 @@ def run_refresh(case):
             vetoes = [True, False] if case["seed"] % 2 else [False]
             started = []
 
+            started_p = []
+
             class StartRecordingVerlet(Verlet):
                 def integrate(self, context):
                     started.append(float(context.atoms.get_kinetic_energy()))
+                    started_p.append(context.atoms.get_momenta().copy())
                     super().integrate(context)
 
             mv = HamiltonianDisplacementMove(distribution=dist, operation=StartRecordingVerlet(dt=0.5, max_steps=4))
             it = iter(vetoes)
             mv.check_move = lambda *_a, **_k: not next(it, False)
+            from quansino.moves.displacement import DisplacementMove
+            from quansino.operations.displacement import Ball
+
+            single = DisplacementMove(np.arange(n), Ball(0.05))
             for trial in range(3):
                 it = iter(vetoes)
+                if case["seed"] % 3 == 0:
+                    # an ordinary single-particle move on the same context comes first (mixed move tables do this)
+                    single(ctx)
+                    ctx.save_state()
+                    if "single-particle-move-first" not in labels:
+                        labels.append("single-particle-move-first")
+                p_prev = atoms.get_momenta().copy()
+                n_started = len(started_p)
                 ok = mv(ctx)
+                if ok and len(started_p) > n_started and np.any(started_p[-1] == p_prev):
+                    same = np.argwhere(started_p[-1] == p_prev).tolist()
+                    out["violation"] = {"kind": "momentum-component-not-redrawn", "detail": f"T={T!r}: the trajectory started with momentum components {same[:6]} equal to their values before the refresh (every component must be drawn afresh)"}
+                    return out
                 if ok and dk != "wrapped":
                     # the shipped distribution used directly: the momenta the trajectory starts from are the fresh ones
                     if not started or ctx.last_kinetic_energy != started[-1]:
@@ -280,7 +299,7 @@ PARTS = {"verlet": (verlet_case, run_verlet), "refresh": (refresh_case, run_refr
 
 def plan(tier):
     if tier == "quick":
-        return [{"part": "verlet", "shards": 10, "budget": {"n_examples": 500}}, {"part": "refresh", "shards": 6, "budget": {"n_examples": 80}}]
+        return [{"part": "verlet", "shards": 10, "budget": {"n_examples": 500}}, {"part": "refresh", "shards": 6, "budget": {"n_examples": 160}}]
     return [{"part": "verlet", "shards": 10, "budget": {"n_examples": 16000}}, {"part": "refresh", "shards": 6, "budget": {"n_examples": 1600}}]
 
 
